@@ -23,8 +23,8 @@ def check(ctx):
                        "uniform variants; RT1/RT2 on the layout interpreter; each (type, value, bytes) set on the real struct by reflection: Encode "
                        "must give the bytes, Parse of the bytes the value, re-Encode the bytes. Helpers validated by Trace_Helpers.")
     ctx.cov["exhaustive"] = True
-    ctx.assumptions += ["types with layouts in spec/Layouts.tla are covered (see DESIGN.md for the list and for the types not yet transcribed: 0x0100, 0x0102, "
-                        "0x0704, 0x8103/0x0104 parameters, 0x9208/0x1210 dialect sign)",
+    ctx.assumptions += ["types with layouts in spec/Layouts.tla are covered (43 layouts: 0x0100 x 3 versions, 0x0102 x 2, 0x1210 / 0x9208 x 5 dialects, 0x0704 with 28-byte items, "
+                        "0x8103 parameters as a table; 0x0104 has no encoder and 0x1212 none of its own)",
                         "in-domain values: BCD timestamps with decimal digits, length/count fields consistent with their lists",
                         "GBK<->UTF-8 is checked as a round-trip law on ASCII plus a fixed set of CJK characters"]
 
